@@ -545,7 +545,7 @@ for v in ck.violations:
     w = v['witness']
     if w.get('op') == 'restore_then_lock':
         # two child processes of the driver: the first takes the locks and serialises, the second (fresh counter) restores and locks
-        rep = Replay.call({'op': 'lock_handle_restart', 'locks': len(w['table']['locks'])})
+        rep = Replay.call({'op': 'lock_handle_restart', 'locks': len(w['table']['locks']), 'expired': [bool(_expired(l, w.get('clock'))) for l in w['table']['locks']]})
         v['native'] = rep
         v['replayed'] = rep.get('violates')
     elif w.get('op') == 'next_lock_handle':
